@@ -87,35 +87,7 @@ pub fn poll_read_buf<T: AsyncRead>(io: &mut T, cx: &mut Context<'_>, buf: &mut B
 
 pub mod tokio_util { pub mod io { pub use super::super::poll_read_buf; } }
 
-/// tokio_util::codec::Encoder.  `enc(item)` are the bytes an accepted item contributes.
-pub trait Encoder<I>: Sized {
-    type Error: From<io::Error>;
-    spec fn enc(item: I) -> Seq<u8>;
-
-    fn encode(&mut self, item: I, dst: &mut BytesMut) -> (r: Result<(), Self::Error>)
-        ensures r is Ok ==> final(dst)@ == old(dst)@ + Self::enc(item);
-}
-
-/// tokio_util::codec::Decoder as a state transformer: `dec(c, b)` / `dec_eof(c, b)` give the result, the buffer that
-/// is left and the codec state afterwards.
-pub enum Dec<T> { Frame(T), NeedMore, Error }
-
-pub trait Decoder: Sized {
-    type Item;
-    type Error: From<io::Error>;
-    spec fn dec(c: Self, buf: Seq<u8>) -> (Dec<Self::Item>, Seq<u8>, Self);
-    spec fn dec_eof(c: Self, buf: Seq<u8>) -> (Dec<Self::Item>, Seq<u8>, Self);
-
-    fn decode(&mut self, src: &mut BytesMut) -> (r: Result<Option<Self::Item>, Self::Error>)
-        ensures
-            (match r { Ok(Some(f)) => Dec::Frame(f), Ok(None) => Dec::NeedMore, Err(_) => Dec::Error }, final(src)@, *final(self))
-                == Self::dec(*old(self), old(src)@);
-
-    fn decode_eof(&mut self, src: &mut BytesMut) -> (r: Result<Option<Self::Item>, Self::Error>)
-        ensures
-            (match r { Ok(Some(f)) => Dec::Frame(f), Ok(None) => Dec::NeedMore, Err(_) => Dec::Error }, final(src)@, *final(self))
-                == Self::dec_eof(*old(self), old(src)@);
-}
+//@include ../common/codec_traits.rs
 
 // ===================================================================== real constants, flags, struct
 //@extract_const file=actix-codec/src/framed.rs name=LW
@@ -214,12 +186,6 @@ impl<T, U> Framed<T, U> {
 
 
 // ===================================================================== read side (C13)
-/// hypothesis on the codec: "need more data" neither consumes bytes nor changes the codec
-/// (proved for LinesCodec in unit codec_lines; true for BytesCodec, which never answers NeedMore on a non-empty buffer)
-pub open spec fn need_more_is_noop<U: Decoder>() -> bool {
-    forall|c: U, b: Seq<u8>| (#[trigger] U::dec(c, b)).0 is NeedMore ==> U::dec(c, b).1 == b && U::dec(c, b).2 == c
-}
-
 impl<T: AsyncRead, U: Decoder> Framed<T, U> {
     /// EOF is flagged only after the transport reported end of stream, and then the decoder stays "readable"
     pub open spec fn rd_wf(&self) -> bool {
@@ -289,6 +255,46 @@ impl<T, U> Framed<T, U> {
         decreases r0.len() - m, (if self.flags.eof { 0int } else { 2int }) + (if self.flags.readable { 1int } else { 0int }),
 //@end
 }
+
+/// the bytes of the stream that no frame has consumed yet: what is buffered followed by what is still to arrive
+pub open spec fn unconsumed<T: AsyncRead, U: Decoder>(x: Framed<T, U>) -> Seq<u8> { x.read_buf@ + x.io.remaining() }
+
+//@lemma lemma_poll_is_chunking_independent props=C13
+/// C13: for a codec whose decisions are prefix-stable, the outcome of a poll is a function of the codec state and of
+/// the WHOLE unconsumed stream only — not of how many bytes happened to have arrived (m), i.e. not of the chunking or
+/// of where Pending was interleaved: a frame is the first frame of the whole unconsumed stream and what stays
+/// unconsumed is exactly what the codec leaves of it; Pending changes nothing; the stream ends only when decode_eof
+/// has nothing more.  By induction over polls the frame sequence equals that of decoding the whole stream at once.
+pub proof fn lemma_poll_is_chunking_independent<T: AsyncRead, U: Decoder>(o: Framed<T, U>, n: Framed<T, U>,
+        r: Poll<Option<Result<U::Item, U::Error>>>)
+    requires o.rd_wf(), rd_post(o, n, r), need_more_is_noop::<U>(), frame_is_prefix_stable::<U>(),
+    ensures
+        r is Pending ==> unconsumed(n) == unconsumed(o) && n.codec == o.codec,
+        r matches Poll::Ready(Some(Ok(f))) ==> (!n.flags.eof ==> U::dec(o.codec, unconsumed(o)) == (Dec::Frame(f), unconsumed(n), n.codec)),
+        r matches Poll::Ready(Some(Ok(f))) ==> (n.flags.eof ==> U::dec_eof(o.codec, unconsumed(o)) == (Dec::Frame(f), unconsumed(n), n.codec)),
+        r matches Poll::Ready(None) ==> U::dec_eof(o.codec, unconsumed(o)).0 is NeedMore && n.io.remaining().len() == 0,
+{
+    let rem = o.io.remaining();
+    let m = rem.len() - n.io.remaining().len();
+    let b = o.buf_after(m);
+    let t = rem.subrange(m, rem.len() as int);
+    assert(b + t =~= unconsumed(o)) by { assert(rem.subrange(0, m) + t =~= rem); }
+    if n.flags.eof {
+        assert(n.io.remaining().len() == 0);
+        assert(t =~= Seq::<u8>::empty());
+        assert(b =~= unconsumed(o));
+        assert(unconsumed(n) =~= n.read_buf@);
+    } else {
+        match r {
+            Poll::Ready(Some(Ok(f))) => {
+                assert(U::dec(o.codec, b).0 is Frame);
+                assert(U::dec(o.codec, b + t) == (U::dec(o.codec, b).0, U::dec(o.codec, b).1 + t, U::dec(o.codec, b).2));
+            }
+            _ => {}
+        }
+    }
+}
+//@end
 
 /// futures_core::Stream (signature only)
 pub trait Stream: Sized {
